@@ -81,9 +81,16 @@ func ruleExportToleratesDeleted(c *eng.Ctx) {
 					return eng.Continue
 				},
 				Edge: func(cond ast.Expr, taken bool) bool {
-					t := eng.EvalBool(info, cond, func(e ast.Expr) eng.Tri {
+					var atom func(e ast.Expr) eng.Tri
+					atom = func(e ast.Expr) eng.Tri {
 						if is, nonNil := eng.ErrNilTest(info, e, ev); is {
 							return eng.TriOf(nonNil)
+						}
+						// a bool local holding the test: deleted := errors.Is(err, …)
+						if o := eng.ObjOf(info, e); o != nil {
+							if def := singleLocalDef(o); def != nil {
+								return eng.EvalBool(info, def, atom)
+							}
 						}
 						if ic, ok := ast.Unparen(e).(*ast.CallExpr); ok && strings.HasSuffix(eng.CalleeName(info, ic), "errors.Is") && len(ic.Args) == 2 {
 							if eng.ObjOf(info, ic.Args[0]) == ev && selObj(info, ic.Args[1]) == notFound && notFound != nil {
@@ -91,7 +98,8 @@ func ruleExportToleratesDeleted(c *eng.Ctx) {
 							}
 						}
 						return eng.Unknown
-					})
+					}
+					t := eng.EvalBool(info, cond, atom)
 					switch t {
 					case eng.True:
 						return taken
